@@ -25,6 +25,9 @@ def main():
                 pat = x.get("pattern")
                 if isinstance(pat, str) and any(c in pat for c in ("\\d", "\\w", "\\s", "\\D", "\\W", "\\S")):
                     return True
+                # time / date-time: validators differ on leap seconds, offsets and lower-case t / z
+                if x.get("format") in ("time", "date-time"):
+                    return True
                 return any(has_class_escape(v) for v in x.values())
             if isinstance(x, list):
                 return any(has_class_escape(v) for v in x)
@@ -43,6 +46,9 @@ def main():
                 continue
             # python's datetime has no year 0000 (RFC 3339 allows it): not a verdict
             if e.validator == "format" and isinstance(e.instance, str) and e.instance.startswith("0000-"):
+                continue
+            # time and date-time: validators differ on leap seconds and lower-case t / z; left to the Rust validator
+            if e.validator == "format" and e.validator_value in ("time", "date-time"):
                 continue
             # 29 February of a non-leap year is a known finding of its own (fixed inputs in the harness): not judged here
             if e.validator == "format" and isinstance(e.instance, str) and "-02-29" in e.instance:
